@@ -46,6 +46,23 @@ attribute [api_eval]
   reqSetUserAccess_eq rspSetUserAccess_eq reqSetUserName_eq rspSetUserName_eq reqSetUserPassword_eq rspSetUserPassword_eq
   reqSetWatchdogTimer_eq rspSetWatchdogTimer_eq reqWarmReset_eq rspWarmReset_eq
 
+@[api_eval, simp] theorem bind_ccError {α β} (c : Nat) (f : α → Outcome β) : (Outcome.ccError c).bind f = .ccError c := rfl
+@[api_eval, simp] theorem bind_pyError {α β} (n : String) (f : α → Outcome β) : (Outcome.pyError n).bind f = .pyError n := rfl
+@[api_eval, simp] theorem bind_decodingError {α β} (f : α → Outcome β) : Outcome.decodingError.bind f = .decodingError := rfl
+@[api_eval, simp] theorem bind_encodingError {α β} (f : α → Outcome β) : Outcome.encodingError.bind f = .encodingError := rfl
+@[api_eval, simp] theorem bind_notSupported {α β} (f : α → Outcome β) : Outcome.notSupported.bind f = .notSupported := rfl
+
+/-! ### lists of a known length -/
+
+theorem list_len1 {l : List Nat} (h : l.length = 1) : ∃ a, l = [a] := by
+  rcases l with _ | ⟨a, _ | ⟨b, t⟩⟩ <;> simp at h
+  exact ⟨a, rfl⟩
+theorem list_len4 {l : List Nat} (h : l.length = 4) : ∃ a b c d, l = [a, b, c, d] := by
+  rcases l with _ | ⟨a, _ | ⟨b, _ | ⟨c, _ | ⟨d, _ | ⟨e, t⟩⟩⟩⟩⟩ <;> simp at h
+  exact ⟨a, b, c, d, rfl⟩
+theorem padTo_length (n : Nat) (l : List Nat) : (padTo n l).length = n := by
+  simp [padTo]
+
 /-! ### flags as numbers -/
 
 theorem b2n_le (b : Bool) : b2n b ≤ 1 := by cases b <;> decide
@@ -150,7 +167,7 @@ structure Port.Wf (p : Port) : Prop where
 def lanWf (k : Nat) (d : List Nat) : Prop :=
   Bytes d ∧ (k % 256 = 4 → 1 ≤ d.length) ∧ (k % 256 = 20 → 2 ≤ d.length)
 
-structure Wf (s : BmcState) : Prop where
+structure BmcState.Wf (s : BmcState) : Prop where
   device : s.device.Wf
   guid : s.guid.length = 16
   watchdog : s.watchdog.Wf
